@@ -26,7 +26,12 @@ for d in sorted(glob.glob(os.path.join(root, 'seeded', '*'))):
     m = json.load(open(mf)); det = {}
     if os.path.exists(os.path.join(d, 'detection.json')): det = json.load(open(os.path.join(d, 'detection.json')))
     need = esc((m.get('needs_to_manifest') or '')[:160])
-    rows.append(f"| {os.path.basename(d)} | {m.get('property')} | {need} | {det.get('check','-')} {det.get('tier','')} | {('yes' if det.get('detected') else 'NO') if det else 'not run yet'} | {(det.get('first_violation_case') or '')[:90]} |")
+    verdict = ('yes' if det.get('detected') else 'NO') if det else 'not run yet'
+    if det and det.get('detected') and any(h.get('detected') is False for h in det.get('history', [])):
+        verdict = 'yes (missed at first; check strengthened)'
+    if det and det.get('exit_code') == 2:
+        verdict = 'harness error'
+    rows.append(f"| {os.path.basename(d)} | {m.get('property')} | {need} | {det.get('check','-')} {det.get('tier','')} | {verdict} | {(det.get('first_violation_case') or '')[:90]} |")
 def put(tag, lines):
     global design
     b, e = f'<!-- {tag}:BEGIN -->', f'<!-- {tag}:END -->'
